@@ -118,6 +118,61 @@ func init() {
 	reg("(*sync.Mutex).Lock", lockOp(true, true))
 	reg("(*sync.Mutex).Unlock", lockOp(true, false))
 
+	// vLockCheck(label, db, f): run f and require that it neither re-enters
+	// a lock it already holds (recursive read locking blocks forever as soon
+	// as a writer arrives in between: sync.RWMutex documentation) nor
+	// self-deadlocks, and that it releases everything it acquired.
+	reg(hp+"vLockCheck", func(i *interpreter, fr *frame, args []value) (res value) {
+		label := strArg(args[0])
+		e := i.env
+		before := len(e.lockEvents)
+		heldBefore := 0
+		for _, l := range e.locks {
+			if l.writer >= 0 {
+				heldBefore++
+			}
+			heldBefore += l.totalReaders()
+		}
+		dead := false
+		func() {
+			defer func() {
+				if r := recover(); r != nil {
+					if pe, ok := r.(pathEnd); ok && pe.status == "deadlock" {
+						dead = true
+						return
+					}
+					panic(r)
+				}
+			}()
+			call(i, fr, 0, args[2], nil)
+		}()
+		if i.path == nil {
+			return nil
+		}
+		hazard := dead
+		for _, ev := range e.lockEvents[before:] {
+			if ev.Kind == "recursive-rlock" || ev.Kind == "self-deadlock" {
+				hazard = true
+				if len(i.path.observes) < 4 {
+					i.path.observes = append(i.path.observes, label+": "+ev.What)
+				}
+			}
+		}
+		i.path.checkAssert(label, mkBool(!hazard))
+		if dead {
+			panic(pathEnd{"violated", "self-deadlock"})
+		}
+		held := 0
+		for _, l := range e.locks {
+			if l.writer >= 0 {
+				held++
+			}
+			held += l.totalReaders()
+		}
+		i.path.checkAssert(label+".released", mkBool(held == heldBefore))
+		return nil
+	})
+
 	// harness access to the lock log
 	reg(hp+"vLockHazards", func(i *interpreter, fr *frame, args []value) value {
 		n := 0
@@ -257,7 +312,9 @@ func init() {
 			}
 			func() {
 				prevT := e.curThread
-				e.curThread = 100 + idx
+				if e.sched == nil {
+					e.curThread = 100 + idx
+				}
 				e.inSpawn, e.sleepBudget = true, ticks
 				defer func() {
 					e.curThread = prevT
